@@ -986,13 +986,153 @@ def run_reuse(ctx, model, case):
 
 
 # =============================================================================================
+# set_scale on the loss AFTER the ADMM object was built (round 3; recorded finding `stale-scale-after-init`)
 
-RUNNERS = {"dense": run_dense, "history": run_dense, "circ": run_circ, "fblock": run_block, "g0": run_block, "kwhist": run_kwhist, "reuse": run_reuse}
+_SS_SOLVERS = ["linear-scico", "linear-jax", "matrix", "generic", "circ", "fblock"]
+_SS_STALE = ("matrix", "circ", "fblock")  # precompute their left-hand side in internal_init
+
+
+def gen_setscale(rng, which=None):
+    which = which or _SS_SOLVERS[int(rng.integers(0, len(_SS_SOLVERS)))]
+    if which in ("linear-scico", "linear-jax", "matrix", "generic"):
+        prob = _gen_where(gen_dense, rng, lambda c: c["f"] is not None and (which != "generic" or not c["cplx"]))
+        s0 = prob["f"]["scale"]
+    elif which == "circ":
+        prob = _gen_where(gen_circ, rng, lambda c: c["f"] is not None and c["f"]["W"] is None)
+        s0 = prob["f"]["scale"]
+    else:
+        prob = _gen_where(GENS["fblock"], rng, lambda c: c["W"] is None)
+        s0 = prob["scale"]
+    s1 = float(rng.choice([v for v in (0.25, 0.5, 1.0, 2.0, 4.0) if v != s0]))
+    return {"kind": "setscale", "solver": which, "problem": prob, "scale1": s1}
+
+
+def _with_scale(prob, s1):
+    q = json.loads(json.dumps(prob))
+    if "f" in q and q["f"] is not None:
+        q["f"]["scale"] = s1
+    else:
+        q["scale"] = s1
+    return q
+
+
+def _impl_setscale(case):
+    _setup()
+    jnp = _S["jnp"]
+    which, prob, s1 = case["solver"], case["problem"], case["scale1"]
+    now = _with_scale(prob, s1)
+    try:
+        sv = _new_solver(which)
+        if which in ("linear-scico", "linear-jax", "matrix", "generic"):
+            cplx = prob["cplx"]
+            admm = _build_dense(prob, sv)
+            admm.f.set_scale(s1)
+            x = np.array(sv.solve(jnp.array(_arr(prob["x0"], cplx), dtype=_dt(cplx))))
+            H, q, *_ = _dense_numpy(now)
+            res = _relres(H @ x, q)
+        elif which == "circ":
+            sv.ndims = len(prob["shape"])
+            admm, sv, Aop, C_list = _build_circ(prob, sv)
+            admm.f.set_scale(s1)
+            x = sv.solve(admm.x)
+            res = _circ_residual(now, admm, Aop, C_list, x)
+            x = np.array(x)
+        else:
+            admm, sv, AA, C_list = _build_block(prob, sv)
+            admm.f.set_scale(s1)
+            x = sv.solve(admm.x)
+            res = _block_documented(now, admm, AA, C_list, x)
+            x = np.array(x)
+    except Exception as e:  # noqa: BLE001
+        return {"err": common.err_kind(e), "msg": repr(e)[:200]}
+    return {"x": x, "res": res, "acc": getattr(sv, "accuracy", None), "sv": sv, "admm": admm}
+
+
+def _ss_tol(case):
+    which = case["solver"]
+    if which in ("linear-scico", "linear-jax", "matrix", "generic"):
+        H, *_ = _dense_numpy(_with_scale(case["problem"], case["scale1"]))
+        return {"linear-scico": 1e-9, "linear-jax": 1e-8, "matrix": 1e-11, "generic": 1e-3}[which] * max(1.0, float(np.linalg.cond(H)))
+    return 1e-8
+
+
+def oracle_setscale(case):
+    """C10 on the implementation: the returned x minimises the x-step objective of the loss AS IT IS NOW"""
+    im = _impl_setscale(case)
+    if "err" in im:
+        return {"unexpected_error": im["err"], "msg": im.get("msg")}
+    if not np.all(np.isfinite(im["x"])) or im["res"] > _ss_tol(case):
+        return {"solver": case["solver"], "scale_at_construction": case["problem"]["f"]["scale"] if "f" in case["problem"] else case["problem"]["scale"],
+                "scale_now": case["scale1"], "relative_residual_of_normal_equations": im["res"],
+                "accuracy_reported": None if im["acc"] is None else float(im["acc"]), "x": tolist(im["x"])}
+    return None
+
+
+def _stale_model(model, case):
+    """dense data of the problem for the model's stale systems (`staleScaleSystem` / `fblockStaleSystem`)"""
+    which, prob = case["solver"], case["problem"]
+    cplx = prob["cplx"]
+    dtc = "c" if cplx else "r"
+    if which == "matrix":
+        H, q, Ad, Wd, y, Cs = _dense_numpy(prob)
+        r = model.call("admm", dt=dtc, which="stale", n=prob["n"], terms=_model_terms(prob, Cs), f=_model_f(prob, Ad, Wd, y), scale1=f2b(case["scale1"]))
+    elif which == "circ":
+        admm, sv, Aop, C_list = _build_circ(prob)
+        shape = tuple(prob["shape"])
+        n = int(np.prod(shape))
+        Ad = _dense(Aop, shape, cplx)
+        terms = [{"p": int(Cd.shape[0]), "rho": f2b(t["rho"]), "C": enc(Cd, cplx), "z": enc(_arr(t["z"], cplx), cplx), "u": enc(_arr(t["u"], cplx), cplx)}
+                 for t, Cd in zip(prob["terms"], [_dense(C, shape, cplx) for C in C_list])]
+        fj = {"m": n, "scale": f2b(prob["f"]["scale"]), "A": enc(Ad, cplx), "W": enc(np.ones(n, dtype=_dt(cplx)), cplx), "y": enc(_arr(prob["f"]["y"], cplx), cplx)}
+        r = model.call("admm", dt=dtc, which="stale", n=n, terms=terms, f=fj, scale1=f2b(case["scale1"]))
+    else:
+        admm, sv, AA, C_list = _build_block(prob)
+        K, N = prob["K"], prob["N"]
+        n = K * N
+        Ad = _dense(AA, (K, N), cplx)
+        terms = [{"p": n, "rho": f2b(t["rho"]), "C": enc(_dense(C, (K, N), cplx), cplx), "z": enc(_arr(t["z"], cplx), cplx), "u": enc(_arr(t["u"], cplx), cplx)}
+                 for t, C in zip(prob["terms"], C_list)]
+        fj = {"m": N, "scale": f2b(prob["scale"]), "A": enc(Ad, cplx), "W": enc(np.ones(N, dtype=_dt(cplx)), cplx), "y": enc(_arr(prob["y"], cplx), cplx)}
+        r = model.call("admm", dt=dtc, which="fblock_stale", n=n, terms=terms, f=fj, scale1=f2b(case["scale1"]))
+    return np.stack([dec(c, cplx) for c in r["lhscols"]], axis=1), dec(r["rhs"], cplx)
+
+
+def run_setscale(ctx, model, case):
+    which = case["solver"]
+    ctx.count("setscale:" + which)
+    im = _impl_setscale(case)
+    ctx.case({"kind": "setscale", "solver": which, "scale1": case["scale1"]}, _key(case))
+    if "err" in im:
+        ctx.disagree("c10.setscale.error", case, {"err": im["err"], "msg": im["msg"]}, "ok", oracle=oracle_setscale)
+        return
+    stale_class = which in _SS_STALE and ctx.is_known("stale-scale-after-init")
+    if stale_class:
+        # the code as it is: operator of the scale at construction, right-hand side of the current scale (model `staleScaleSystem`)
+        mcols, mrhs = _stale_model(model, case)
+        xv = im["x"].ravel()
+        kk = 100 * xv.size * (len(case["problem"]["terms"]) + 2)
+        if not vclose(mcols @ xv, mrhs, kk, rtol=1e-8):
+            ctx.disagree("c10.setscale.stale-system", case, tolist(mcols @ xv), tolist(mrhs), oracle=oracle_setscale)
+            return
+    if im["res"] > _ss_tol(case):
+        ctx.disagree("c10.setscale.normal-equations", case, im["res"], 0.0, oracle=oracle_setscale,
+                     known_id="stale-scale-after-init" if which in _SS_STALE else None)
+
+
+STALE_WITNESS = {"kind": "setscale", "solver": "matrix", "scale1": 2.0,
+                 "problem": {"kind": "dense", "n": 2, "cplx": False, "x0": [0.0, 0.0],
+                             "f": {"kind": "matrix", "m": 3, "A": [1.0, 2.0, 0.0, 1.0, 1.0, 1.0], "W": None, "scale": 0.5, "y": [1.0, 2.0, 3.0]},
+                             "terms": [{"kind": "identity", "p": 2, "C": None, "rho": 1.0, "z": [1.0, -1.0], "u": [0.0, 0.0]}]}}
+
+
+# =============================================================================================
+
+RUNNERS = {"dense": run_dense, "history": run_dense, "circ": run_circ, "fblock": run_block, "g0": run_block, "kwhist": run_kwhist, "reuse": run_reuse, "setscale": run_setscale}
 GENS = {"dense": gen_dense, "history": gen_history, "circ": gen_circ, "fblock": lambda rng: gen_block(rng, "fblock"), "g0": lambda rng: gen_block(rng, "g0"),
-        "kwhist": gen_kwhist, "reuse": gen_reuse}
+        "kwhist": gen_kwhist, "reuse": gen_reuse, "setscale": gen_setscale}
 ORACLES = {"dense": oracle_dense, "history": oracle_dense, "circ": oracle_circ, "fblock": oracle_block, "g0": oracle_block, "kwhist": oracle_kwhist,
-           "reuse": oracle_reuse}
-BUDGET = {"dense": (20, 220), "history": (12, 120), "circ": (30, 300), "fblock": (16, 160), "g0": (16, 160), "kwhist": (10, 80), "reuse": (14, 105)}
+           "reuse": oracle_reuse, "setscale": oracle_setscale}
+BUDGET = {"dense": (20, 220), "history": (12, 120), "circ": (30, 300), "fblock": (16, 160), "g0": (16, 160), "kwhist": (10, 80), "reuse": (14, 105), "setscale": (12, 90)}
 
 
 
@@ -1029,6 +1169,7 @@ STRATA = {
         lambda c: c["probe"]["cg_kwargs"] == {"tol": 1e-9} and any(h["cg_kwargs"] and "maxiter" in h["cg_kwargs"] for h in c["history"]),
     ],
     "reuse": [(lambda w: (lambda c: c["solver"] == w))(w) for w in _REUSE_SOLVERS],
+    "setscale": [(lambda w: (lambda c: c["solver"] == w))(w) for w in _SS_SOLVERS],
     "g0": [lambda c: c["K"] >= 2 and len(c["terms"]) == 2 and c["terms"][0]["rho"] != c["terms"][1]["rho"] and c["rho1"] != c["terms"][0]["rho"]],
 }
 
@@ -1080,6 +1221,10 @@ def findings(ctx, model):
     if ctx.is_known("matrix-mixed"):
         im = _impl_dense(MIXED_WITNESS, "matrix")
         ctx.known_finding("matrix-mixed", im.get("err") == "type")
+    if ctx.is_known("stale-scale-after-init"):
+        r = oracle_setscale(STALE_WITNESS)
+        ctx.known_finding("stale-scale-after-init", r is not None and "relative_residual_of_normal_equations" in r,
+                          "" if r is None else f"x-step residual {r.get('relative_residual_of_normal_equations'):.3g}, accuracy reported {r.get('accuracy_reported')}")
     if ctx.is_known("g0-scale"):
         r = oracle_block(G0_WITNESS)
         ctx.known_finding("g0-scale", r is not None and "relative_residual_of_normal_equations" in r,
@@ -1093,6 +1238,8 @@ def search(ctx, model, why):
         for _ in range(max(6, ctx.n(q, t) // 4)):
             case = GENS[kind](ctx.rng)
             if kind in ("fblock", "g0") and _block_known(case) and ctx.is_known(_block_known(case)):
+                continue
+            if kind == "setscale" and case["solver"] in _SS_STALE and ctx.is_known("stale-scale-after-init"):
                 continue
             if kind == "dense" and ctx.is_known("matrix-mixed") and 1 < len({t["kind"] for t in case["terms"]}) and any(
                     t["kind"] == "matrix" for t in case["terms"]):
